@@ -19,11 +19,30 @@ func readPoints(r io.Reader, byteOrder binary.ByteOrder) ([]geom.Point, error) {
 	if err := binary.Read(r, byteOrder, &numPoints); err != nil {
 		return nil, err
 	}
-	points := make([]geom.Point, numPoints)
-	if err := binary.Read(r, byteOrder, &points); err != nil {
-		return nil, err
+	// numPoints comes from the input and is not trusted: read in bounded
+	// chunks so that memory use follows the data that is actually there.
+	points := make([]geom.Point, 0, capHint(numPoints))
+	for remaining := numPoints; remaining > 0; {
+		chunk := make([]geom.Point, capHint(remaining))
+		if err := binary.Read(r, byteOrder, &chunk); err != nil {
+			return nil, err
+		}
+		points = append(points, chunk...)
+		remaining -= uint32(len(chunk))
 	}
 	return points, nil
+}
+
+// maxPrealloc is the largest number of elements allocated on the strength
+// of a count field alone.
+const maxPrealloc = 1024
+
+// capHint returns n limited to maxPrealloc.
+func capHint(n uint32) int {
+	if n > maxPrealloc {
+		return maxPrealloc
+	}
+	return int(n)
 }
 
 func writePoint(w io.Writer, byteOrder binary.ByteOrder, point geom.Point) error {
